@@ -207,7 +207,7 @@ def analyse_lt(ck, prog, fn, rule_prefix, oracle, quantities, time_name='time'):
     allouts = results['numeric'] + results['clear']
     n_paths, n_ops = motion.check_precision(ck, rule_prefix + '-D4-precision', fn, allouts)
     ck.floor('%s mpmath operations on analysed paths' % fn.name, n_ops, 5)
-    n_div = motion.check_float_division(ck, rule_prefix + '-D4-float-division', fn)
+    n_div = motion.check_float_division_closure(ck, rule_prefix + '-D4-float-division', prog, fn)
     ck.floor('%s division sites' % fn.name, n_div, 1)
     return results
 
